@@ -1208,12 +1208,12 @@ class Tree(DirectedGraph):
             # check if root_vertex is valid
             self._check_vertex(root_vertex)
             # check if the tree is properly defined given the root
-            if not np.allclose(
-                csgraph.breadth_first_tree(
-                    self.adjacency_matrix, root_vertex, directed=True
-                ).nonzero(),
-                self.adjacency_matrix.nonzero(),
-            ):
+            # (compare the two edge sets, not the order in which scipy happens
+            # to list the non-zero entries)
+            bfs_tree = csgraph.breadth_first_tree(
+                self.adjacency_matrix, root_vertex, directed=True
+            )
+            if ((bfs_tree != 0) != (self.adjacency_matrix != 0)).nnz != 0:
                 raise ValueError(
                     "The combination of adjacency matrix and root "
                     "vertex is not valid. BFS returns a different "
